@@ -199,6 +199,7 @@ def run(run, ix, tier):
     # ---- A-R4 ------------------------------------------------------------------
     check_protocols(run, ix, eng)
     check_manager_activations(run, ix)
+    check_rule_object_steps(run, ix)
     # ---- A-R6 ------------------------------------------------------------------
     check_setters(run, ix)
     # ---- A-R7 ------------------------------------------------------------------
@@ -343,6 +344,31 @@ def check_protocols(run, ix, eng):
             problems.append('%s does not save <ctx>.prec on the object' % m1)
         elif not order_ok:
             problems.append('%s saves the precision after changing it' % m1)
+        if stack and snap is not None and m1 == '__enter__':
+            # __exit__ is not called when __enter__ raises: the pushed entry must be taken back and the precision
+            # restored by __enter__ itself, or the next use of the manager object pops a stale entry
+            writes = [st for st in _stmts_in_order(f1.node) if
+                      (isinstance(st, ast.Assign) and any(is_cell_attr(t) for t in st.targets)) or
+                      (isinstance(st, ast.AugAssign) and is_cell_attr(st.target))]
+            for w in writes:
+                p_ = getattr(w, '_parent', None)
+                in_handler = False
+                protected = False
+                while p_ is not None and p_ is not f1.node:
+                    if isinstance(p_, ast.ExceptHandler):
+                        in_handler = True
+                    if isinstance(p_, ast.Try) and not in_handler:
+                        for h in p_.handlers:
+                            if h.type is None or norm(h.type) in ('BaseException', 'Exception'):
+                                pops = any(isinstance(c, ast.Call) and norm(c.func) == snap + '.pop' for c in ast.walk(h))
+                                reraises = any(isinstance(r, ast.Raise) and r.exc is None for r in ast.walk(h))
+                                if pops and reraises:
+                                    protected = True
+                    p_ = getattr(p_, '_parent', None)
+                if not in_handler and not protected:
+                    problems.append('__enter__ changes the precision (`%s`) after pushing the saved one and outside a '
+                                    'try that pops it again: when the setter raises (with mp.workprec(-10**400)) '
+                                    '__exit__ is not called and the entry stays on %s' % (norm(w, 50), snap))
         # phase 2: restores .prec from that attribute
         restores = []
         for st in _stmts_in_order(f2.node):
@@ -504,6 +530,41 @@ def check_setters(run, ix):
                                         'classes alias the list through _ctxdata)' % listname)
                     if isinstance(t, ast.Attribute) and t.attr == '_dps':
                         dps_store = st.value
+            # values computed into locals first (`prec, dps = max(1, int(n)), prec_to_dps(n)`) are resolved
+            locals_ = {}
+            for st in f.node.body:
+                if isinstance(st, ast.Assign) and len(st.targets) == 1:
+                    t = st.targets[0]
+                    if isinstance(t, ast.Name):
+                        locals_[t.id] = st.value
+                    elif isinstance(t, ast.Tuple) and isinstance(st.value, ast.Tuple) and len(t.elts) == len(st.value.elts):
+                        for a, b in zip(t.elts, st.value.elts):
+                            if isinstance(a, ast.Name):
+                                locals_[a.id] = b
+            if isinstance(prec_val, ast.Name) and prec_val.id in locals_:
+                prec_val = locals_[prec_val.id]
+            if isinstance(dps_store, ast.Name) and dps_store.id in locals_:
+                dps_store = locals_[dps_store.id]
+            # atomicity: every conversion that can fail (prec_to_dps / dps_to_prec / int) runs before the first store
+            first_store = None
+            for i_, st in enumerate(f.node.body):
+                if isinstance(st, ast.Assign) and any(
+                        (isinstance(t, ast.Subscript) and isinstance(t.value, ast.Attribute) and t.value.attr == listname) or
+                        (isinstance(t, ast.Attribute) and t.attr in ('_dps', '_prec')) for t in st.targets):
+                    first_store = i_
+                    break
+            if first_store is not None:
+                late = [c for st in f.node.body[first_store:] for c in ast.walk(st) if isinstance(c, ast.Call)
+                        and norm(c.func) in ('prec_to_dps', 'dps_to_prec')
+                        and not (st is f.node.body[first_store] and
+                                 not any(isinstance(c2, ast.Call) and norm(c2.func) in ('prec_to_dps', 'dps_to_prec')
+                                         for st2 in f.node.body[first_store + 1:] for c2 in ast.walk(st2))
+                                 and all(isinstance(t, ast.Attribute) and t.attr == '_dps' for t in st.targets))]
+                if late and first_store is not None and any(
+                        c for st in f.node.body[first_store + 1:] for c in ast.walk(st)
+                        if isinstance(c, ast.Call) and norm(c.func) in ('prec_to_dps', 'dps_to_prec')):
+                    problems.append('a conversion (`%s`) runs after the first store: when it fails (OverflowError for '
+                                    '|n| > 1.8e308) prec and dps are left inconsistent' % norm(late[-1]))
             # both stores must be unconditional: top-level statements, and
             # nothing before them may leave the setter early
             stores_done = 0
@@ -683,3 +744,53 @@ def check_generators(run, ix):
                                  line=node.lineno))
     if n < 2:
         raise AnalysisError('only %d generators that restore a precision found' % n)
+
+
+# --------------------------------------------------------------------------- A-R8
+def check_rule_object_steps(run, ix):
+    """A-R8.  The inverse-Laplace rule objects are a documented two-call protocol: calc_laplace_parameter raises the
+    precision of the CALLING context, calc_time_domain_solution puts it back (A-R4 checks the pairing).  A step that
+    fails must not leave the raised precision behind: every concrete implementation of the two methods either contains
+    a try whose handler / finally assigns <ctx>.prec, or is wrapped by a decorator of the module whose wrapper does so
+    and re-raises."""
+    run.rule('A-R8', floor=6, desc='a failing step of an inverse-Laplace rule object restores the precision')
+    rel = 'mpmath/calculus/inverselaplace.py'
+    m = ix.module(rel)
+
+    def restoring_try(fn):
+        for t in ast.walk(fn):
+            if isinstance(t, ast.Try):
+                blocks = list(t.finalbody)
+                for h in t.handlers:
+                    if any(isinstance(r, ast.Raise) and r.exc is None for r in ast.walk(h)):
+                        blocks += h.body
+                for b_ in blocks:
+                    for a in ast.walk(b_):
+                        if isinstance(a, ast.Assign) and any(isinstance(x, ast.Attribute) and x.attr == 'prec' and
+                                                             'ctx' in norm(x) for x in a.targets):
+                            return True
+        return False
+    n = 0
+    for cname, c in sorted(m.classes.items()):
+        bases = [norm(b) for b in c.node.bases]
+        if 'InverseLaplaceTransform' not in bases:
+            continue
+        for mname in ('calc_laplace_parameter', 'calc_time_domain_solution'):
+            f = c.methods.get(mname)
+            if f is None:
+                continue
+            n += 1
+            ok = restoring_try(f.node)
+            for d in f.node.decorator_list:
+                g = m.funcs.get(norm(d))
+                if g is not None and restoring_try(g.node):
+                    ok = True
+            if ok:
+                run.ok('A-R8', '%s.%s restores the precision when it fails' % (cname, mname))
+            else:
+                run.fail(Finding('A-R8', rel, '%s.%s' % (cname, mname), 'def %s' % mname,
+                                 'this step changes / relies on the raised precision of the calling context and has no '
+                                 'exception path that puts it back: a failure (t = 0, a transform list of the wrong '
+                                 'length) leaves the caller at the rule\'s working precision', line=f.lineno))
+    if n < 6:
+        raise AnalysisError('only %d rule-object steps found' % n)
